@@ -1719,7 +1719,7 @@ Proof.
   inversion F as [|? ? Fe Fr]; subst. simpl run.
   pose proof (step_hb st s e Cr) as Hb.
   assert (Cr' : crashed (step true true true st s e) = false).
-  { unfold step. rewrite Cr. destruct e; try contradiction; [destruct ok; try contradiction; exact Cr|exact Cr]. }
+  { unfold step. rewrite Cr. destruct e; try contradiction; [destruct ok; try contradiction; exact Cr|reflexivity]. }
   destruct e; try contradiction.
   - destruct ok; try contradiction. destruct Hb as [H1 H2]. rewrite Hl in H2. simpl in H2.
     destruct (IH _ a Cr' H1 ltac:(lia) Fr) as (A & B & C). repeat split; auto.
